@@ -396,6 +396,7 @@ func runWorkers(c *Check, cfg *Config, bin, work string, rs runSpec) ([]Result, 
 			b, err := os.ReadFile(out)
 			if err != nil {
 				tail := stderr.String()
+				os.WriteFile(filepath.Join(verifDir, ".work", fmt.Sprintf("crash-%s-%s-%d.stderr", c.Property, cfg.Name, i)), []byte(tail), 0o644)
 				if len(tail) > 3000 {
 					tail = tail[len(tail)-3000:]
 				}
@@ -447,9 +448,10 @@ func crashInCodeUnderTest(stderr string) (class, msg string) {
 		return "", ""
 	}
 	tr := stderr[idx:]
-	if strings.Contains(tr, "out of memory") || strings.Contains(tr, "cannot allocate memory") {
-		return "", ""
-	}
+	// Memory exhaustion (the workers run under an address-space limit) and stack overflow are attributed to
+	// the code under test by the same rule as any other fault: the innermost non-runtime frame must be gonum's
+	// own (a runaway recursion or unbounded allocation inside the library; seeded change C14-r2-1 made Johnson's
+	// circuit search recurse without bound). If the allocation that fails is the harness's, it stays an engine error.
 	lines := strings.Split(tr, "\n")
 	first := ""
 	for _, l := range lines {
